@@ -37,6 +37,9 @@ type Spec struct {
 	BBMax    []float64 `json:"bbmax"`
 	Shape    *sk.Field `json:"shape"`
 	Note     string    `json:"note,omitempty"`
+	// renderer reuse: these specs (same renderer, same meshCells) are rendered first, in order, by the
+	// SAME renderer object; the oracles are applied to the render of this spec
+	Prev []Spec `json:"prev,omitempty"`
 }
 
 func (s *Spec) key() string {
@@ -126,16 +129,29 @@ func (st *state) render(sp *Spec, F sk.F3, fail func(string)) *rendered {
 	bb := sdf.Box3{Min: vec(sp.BBMin), Max: vec(sp.BBMax)}
 	rec := &sk.Recorder3{S: &sk.Fn3{F: F.F, BB: bb}}
 	col := &sk.TriCollector{}
+	var obj render.Render3
 	switch sp.Renderer {
 	case "uniform":
-		render.NewMarchingCubesUniform(sp.Cells).Render(rec, col)
+		obj = render.NewMarchingCubesUniform(sp.Cells)
 	case "octree":
-		render.NewMarchingCubesOctree(sp.Cells).Render(rec, col)
+		obj = render.NewMarchingCubesOctree(sp.Cells)
 	case "mc":
 		render.VerifMarchingCubes(rec, bb, sp.Step, col)
 	default:
 		fail("bad renderer " + sp.Renderer)
 		return nil
+	}
+	if obj != nil {
+		for i := range sp.Prev {
+			p := &sp.Prev[i]
+			Fp, err := p.Shape.Build3(sk.Grid3{Res: 1}, 0, nil)
+			if err != nil {
+				fail("bad spec: " + err.Error())
+				return nil
+			}
+			obj.Render(&sk.Fn3{F: Fp.F, BB: sdf.Box3{Min: vec(p.BBMin), Max: vec(p.BBMax)}}, &sk.TriCollector{})
+		}
+		obj.Render(rec, col)
 	}
 	out := &rendered{tris: col.T, rec: rec}
 	if len(rec.P) == 0 {
@@ -288,6 +304,21 @@ func (st *state) do(sp *Spec, stratum string, rng *Rng) {
 	}
 	if worst > st.maxF[kind] {
 		st.maxF[kind] = worst
+	}
+	// --- enclosed volume of spheres and boxes: the mesh lies within one cell of the surface, so the
+	// volume differs from the exact one by at most a shell of thickness h (factor 2 for curvature)
+	if (kind == "sphere" || kind == "box") && len(o.tris) > 0 {
+		var exact, area float64
+		if kind == "sphere" {
+			R := sp.Shape.R
+			exact, area = 4.0/3*math.Pi*R*R*R, 4*math.Pi*R*R
+		} else {
+			h := sp.Shape.H
+			exact, area = 8*h[0]*h[1]*h[2], 8*(h[0]*h[1]+h[1]*h[2]+h[0]*h[2])
+		}
+		if vol := signedVolume(o.tris); math.Abs(vol-exact) > 2*area*o.hmax+1e-9*exact {
+			fail(fmt.Sprintf("%s: enclosed volume %g, exact %g: differs by more than a shell of two cells (area %g, cell %g)", kind, vol, exact, area, o.hmax))
+		}
 	}
 	// --- normals against the gradient (exact primitives; slivers skipped)
 	resolved := kind == "plane" || (kind == "sphere" && sp.Shape.R > o.diag) ||
@@ -546,6 +577,31 @@ func check(c *Ctx, r *Report) error {
 				for _, rd := range []string{"uniform", "octree"} {
 					sp := genSpec(rng, rd, n)
 					st.do(sp, fmt.Sprintf("%s/%s/cells>8", rd, sp.Shape.Kind), rng)
+				}
+			}
+		}
+		// renderer reuse: ONE renderer object renders solids with EQUAL bounding boxes one after the other
+		// (sphere, cube, union of spheres, ...); every render must pass all the oracles above
+		for rep := 0; rep < TierN(c.Tier, 2, 8, 4); rep++ {
+			for _, rd := range []string{"octree", "uniform"} {
+				n := []int{8, 12, 20, 40}[rng.Intn(4)]
+				R := []float64{1, 2.5, 10}[rng.Intn(3)]
+				ctr := v3.Vec{X: math.Round(rng.Uniform(-2, 2)*4) / 4, Y: math.Round(rng.Uniform(-2, 2)*4) / 4, Z: math.Round(rng.Uniform(-2, 2)*4) / 4}
+				mn, mx := boxAround(ctr, v3.Vec{X: R, Y: R, Z: R})
+				cc := []float64{ctr.X, ctr.Y, ctr.Z}
+				shapes := []*sk.Field{
+					{Kind: "sphere", C: cc, R: R},
+					{Kind: "box", C: cc, H: []float64{R, R, R}},
+					{Kind: "sphere", C: cc, R: 0.5 * R},
+					{Kind: "box", C: []float64{ctr.X + 0.25*R, ctr.Y, ctr.Z - 0.25*R}, H: []float64{0.5 * R, 0.75 * R, 0.5 * R}},
+					{Kind: "union", A: &sk.Field{Kind: "sphere", C: []float64{ctr.X - 0.4*R, ctr.Y, ctr.Z}, R: 0.6 * R}, B: &sk.Field{Kind: "sphere", C: []float64{ctr.X + 0.5*R, ctr.Y, ctr.Z}, R: 0.5 * R}},
+				}
+				perm := rng.Perm(len(shapes))
+				var prev []Spec
+				for q := 0; q < 4; q++ {
+					sp := &Spec{Renderer: rd, Cells: n, BBMin: mn, BBMax: mx, Shape: shapes[perm[q]], Prev: append([]Spec(nil), prev...)}
+					st.do(sp, fmt.Sprintf("reuse/%s/render%d/%s", rd, q+1, sp.Shape.Kind), rng)
+					prev = append(prev, Spec{Renderer: rd, Cells: n, BBMin: mn, BBMax: mx, Shape: shapes[perm[q]]})
 				}
 			}
 		}
